@@ -127,6 +127,9 @@ type Obs struct {
 }
 
 type event struct {
+	Kind   string           `json:"kind"` // tree | slice
+	Want   []int            `json:"want"`
+	Got    []int            `json:"got"`
 	What   string           `json:"what"`
 	Len    int64            `json:"len"`
 	Force  bool             `json:"force"`
@@ -137,6 +140,16 @@ type event struct {
 	RawOut []int            `json:"rawout"` // stdout of `fq tobytes FILE` (non-terminal)
 	RawOk  bool             `json:"rawok"`
 	JqErr  string           `json:"jqerr"`
+}
+
+func bitsOfBytes(b []byte) []int {
+	o := make([]int, 0, len(b)*8)
+	for _, x := range b {
+		for i := 7; i >= 0; i-- {
+			o = append(o, int(x>>uint(i))&1)
+		}
+	}
+	return o
 }
 
 func ints(b []byte) []int {
@@ -341,6 +354,9 @@ func progItem(i int, p treelib.Prog, seed int64) *item {
 }
 
 func runBatches(items []*item, out *kit.Out) {
+	for _, it := range items {
+		it.ev.Kind, it.ev.Want, it.ev.Got = "tree", []int{}, []int{}
+	}
 	// parallel over batches of 40 sharing (format, force)
 	groups := map[string][]*item{}
 	for _, it := range items {
@@ -487,6 +503,55 @@ func main() {
 			items = append(items, it)
 		})
 		runBatches(items, out)
+		out.Close()
+	case "slice":
+		// slice <n> <events>: the root of a decode of a SLICED binary must give back exactly the slice (C05: "the root value yields the whole input")
+		n := kit.Atoi(os.Args[2])
+		out := kit.NewOut(os.Args[3])
+		rng := rand.New(rand.NewSource(seed))
+		payloads := []string{`[1,2]`, `{"a":[true,null,"x"]}`, `"str"`, `123`, `[]`, `{"k":{"n":-1.5}}`}
+		type sc struct {
+			Pre, Post int
+			Pay       string
+		}
+		var cases []sc
+		var progs []string
+		for i := 0; i < n; i++ {
+			c := sc{Pre: rng.Intn(10), Post: rng.Intn(6), Pay: payloads[rng.Intn(len(payloads))]}
+			cases = append(cases, c)
+		}
+		arg, _ := json.Marshal(cases)
+		prog := `$cs[] | . as $c | (("x" * $c.Pre) + $c.Pay + ("y" * $c.Post)) as $s
+| try ($s | tobytes[$c.Pre:($c.Pre + ($c.Pay | length))] | json | {ok: true, got: (tobytes | explode), bits: (tobits | explode)}) catch {ok: false, got: [], bits: []}`
+		_ = progs
+		res := kit.RunFQ([]string{"-n", "-c", "--argjson", "cs", string(arg), prog}, nil, nil)
+		dec := json.NewDecoder(bytes.NewReader(res.Stdout))
+		k := 0
+		for {
+			var o struct {
+				Ok   bool  `json:"ok"`
+				Got  []int `json:"got"`
+				Bits []int `json:"bits"`
+			}
+			if err := dec.Decode(&o); err != nil {
+				break
+			}
+			c := cases[k]
+			gb := make([]byte, len(o.Got))
+			for i, x := range o.Got {
+				gb[i] = byte(x)
+			}
+			ev := event{Kind: "slice", What: fmt.Sprintf("%q | tobytes[%d:%d] | json | tobytes", strings.Repeat("x", c.Pre)+c.Pay+strings.Repeat("y", c.Post), c.Pre, c.Pre+len(c.Pay)),
+				Want: bitsOfBytes([]byte(c.Pay)), Got: bitsOfBytes(gb), Prog: []treelib.Tok{}, Nodes: []treelib.Node{}, Bufs: map[string][]int{}, Obs: []Obs{}, RawOut: []int{}}
+			if !o.Ok {
+				ev.JqErr = "decode of slice failed"
+			}
+			out.Emit(ev)
+			k++
+		}
+		if k != len(cases) {
+			kit.Fatalf("slice: %d results for %d cases: %s", k, len(cases), res.Stderr)
+		}
 		out.Close()
 	case "pathexpr":
 		// cases: {"p": [path elements]}; one fq run evaluates all of them
